@@ -208,6 +208,8 @@ type profile struct {
 	routes      []string
 	msgKinds    []string
 	mask        []int // kept components of each operation's output (nil: all)
+	pOddChan    int   // % of packets arriving on an unusual (but mostly valid) destination channel
+	pCallback   int   // % of packet operations that drive another IBC callback instead (differential only)
 	pSwap       int   // % of orbiter packets with a swap action (needs the instrumented instance with the swap controller)
 	pPlanned    int   // % of messages chosen to be valid for the state the history has reached (deep histories)
 	pInitLimit  int   // % of histories that begin with the authority raising the passthrough limit
@@ -250,6 +252,10 @@ var profiles = map[string]profile{
 	// C18: passthrough lengths around the limit in force, histories of parameter updates
 	"C18": {name: "C18", minOps: 3, maxOps: 10, wRecv: 55, wMsg: 35, wDeposit: 0, wQuery: 10, pOrbiter: 97, pFee: 20, pBadPayload: 2,
 		pFault: 0, pLie: 0, pWrongSign: 20, pPass: 85, pHuge: 0, pBadDenom: 0, routes: cleanRoutes, msgKinds: []string{"UpdateParams"}, mask: []int{0, 1, 4}, pPlanned: 50},
+	// C07: traffic that is not the orbiter's, every receiver / memo / data / channel, all pause and parameter states
+	"C07": {name: "C07", minOps: 2, maxOps: 7, wRecv: 75, wMsg: 20, wDeposit: 5, wQuery: 0, pOrbiter: 8, pFee: 30, pBadPayload: 10,
+		pFault: 0, pLie: 0, pWrongSign: 5, pPass: 10, pHuge: 8, pBadDenom: 35, routes: cleanRoutes, msgKinds: allMsgKinds, mask: []int{0, 2, 4},
+		pPlanned: 60, pOddChan: 22, pCallback: 15},
 	// C14: the malformed stream through the whole stack
 	// C06: fee and swap controllers in both orders, repeated identifiers
 	"C06": {name: "C06", minOps: 1, maxOps: 4, wRecv: 92, wMsg: 0, wDeposit: 8, wQuery: 0, pOrbiter: 98, pFee: 70, pBadPayload: 6,
@@ -437,8 +443,9 @@ func (g *gen) genPacket() (world.Packet, pktInfo) {
 	info := pktInfo{shape: "valid"}
 	info.dstChan = rng.Pick(r, dstChans)
 	p := world.Packet{SrcPort: srcPort, SrcChan: srcChan, DstPort: dstPort, DstChan: info.dstChan}
-	if r.Chance(3) {
-		p.DstChan = rng.Pick(r, []string{"channel-18446744073709551615", "channel-4294967296", "channel-01", "chan-0", "", "channel-184467440737095516150"})
+	if r.Chance(3 + g.p.pOddChan) {
+		p.DstChan = rng.Pick(r, []string{"channel-18446744073709551615", "channel-4294967296", "channel-4294967295", "channel-01", "channel-77", "chan-0", "",
+			"channel-184467440737095516150", "channel-9223372036854775808"})
 		info.shape = "odd-dst-channel"
 	}
 	native := rng.Pick(r, []string{sim.USDC, sim.USDC, sim.USDC, "ufoo"})
